@@ -17,6 +17,21 @@ func ruleT2(p *Prog) *RuleResult {
 	res := newResult("T2", ruleDoc["T2"], 2)
 	fns := append([]*ssa.Function(nil), p.sourceFns()...)
 	sort.Slice(fns, func(i, j int) bool { return fname(fns[i]) < fname(fns[j]) })
+	t2Callers = map[*ssa.Function][]*ssa.Call{}
+	for _, g := range fns {
+		if g.Blocks == nil {
+			continue
+		}
+		for _, b := range g.Blocks {
+			for _, ins := range b.Instrs {
+				if c, ok := ins.(*ssa.Call); ok {
+					if callee := c.Call.StaticCallee(); callee != nil {
+						t2Callers[callee] = append(t2Callers[callee], c)
+					}
+				}
+			}
+		}
+	}
 	for _, f := range fns {
 		if f.Blocks == nil {
 			continue
@@ -181,7 +196,34 @@ func flowsToLenCompare(v ssa.Value, d int, seen map[ssa.Value]bool) bool {
 			if flowsToLenCompare(x, d+1, seen) {
 				return true
 			}
+		case *ssa.Return:
+			// handed back to the caller (a tally helper): follow the result at every static call site
+			f := x.Parent()
+			for ri, rv := range x.Results {
+				if rv != v {
+					continue
+				}
+				for _, site := range t2Callers[f] {
+					if site.Referrers() == nil {
+						continue
+					}
+					if len(x.Results) == 1 {
+						if flowsToLenCompare(site, d+1, seen) {
+							return true
+						}
+						continue
+					}
+					for _, rr := range *site.Referrers() {
+						if ex, ok := rr.(*ssa.Extract); ok && ex.Index == ri && flowsToLenCompare(ex, d+1, seen) {
+							return true
+						}
+					}
+				}
+			}
 		}
 	}
 	return false
 }
+
+// t2Callers: static call sites per callee, filled by ruleT2.
+var t2Callers = map[*ssa.Function][]*ssa.Call{}
